@@ -267,7 +267,7 @@ def parts(tier):
     finally:
         fakeusb.WORLD.env = None
         s.finish()
-    sc = [{'faults': [[i, e]], 'D': None} for i in idx for e in ('timeout', 'nodevice', 'io', 'pipe')]
+    sc = [{'faults': [[i, e]], 'D': None} for i in idx for e in ('timeout', 'timeout-partial', 'nodevice', 'io', 'pipe')]
     sc += [{'unplug': i, 'D': None} for i in idx]
     out.append(Part('backend-errors', sc, run_session, what='every USBError subclass at every bulkRead/bulkWrite call index of a session', bound='%d (index, error) cases' % len(sc)))
     sc = [{'at': a, 'err': e} for a in (0, 1) for e in ('nodevice', 'io', 'busy', 'notfound')]
